@@ -3,12 +3,15 @@ from _base import fl, serve
 from persim import images_kernels as K
 
 
-def grid(ts, mu, vx, vy):
+def grid(ts, mu, vx, vy, intpts=False):
     sx, sy = math.sqrt(vx), math.sqrt(vy)
     xs = np.array([mu[0] + t / 8.0 * sx for t in ts])
     ys = np.array([mu[1] + t / 8.0 * sy for t in ts])
     X, Y = np.meshgrid(xs, ys, indexing="ij")
-    return X.ravel(), Y.ravel(), len(ts)
+    X, Y = X.ravel(), Y.ravel()
+    if intpts and np.all(X == np.round(X)) and np.all(Y == np.round(Y)):
+        X, Y = X.astype(np.int64), Y.astype(np.int64)      # integer-valued evaluation points held in integer arrays
+    return X, Y, len(ts)
 
 
 def mat(v, n):
@@ -20,12 +23,12 @@ def handler(job):
     k = job["kind"]
     with np.errstate(all="ignore"):
         if k == "bvn":
-            X, Y, n = grid(job["ts"], job["mu"], job["vx"], job["vy"])
+            X, Y, n = grid(job["ts"], job["mu"], job["vx"], job["vy"], job.get("intpts", False))
             cov = job["rho"] * math.sqrt(job["vx"] * job["vy"])
             sig = np.array([[job["vx"], cov], [cov, job["vy"]]])
             return {"V": mat(K.gaussian(X, Y, mu=np.array(job["mu"], dtype=float), sigma=sig), n)}
         if k == "product":
-            X, Y, n = grid(job["ts"], job["mu"], job["vx"], job["vy"])
+            X, Y, n = grid(job["ts"], job["mu"], job["vx"], job["vy"], job.get("intpts", False))
             sig = np.array([[job["vx"], 0.0], [0.0, job["vy"]]])
             g = K.gaussian(X, Y, mu=np.array(job["mu"], dtype=float), sigma=sig)
             s = K.sbvn_cdf(X, Y, mu_x=job["mu"][0], mu_y=job["mu"][1], sigma_x=job["vx"], sigma_y=job["vy"])
